@@ -407,6 +407,14 @@ def shared_generator_histories(ctx, nd, rng):
             cfg = rng.choice(objs)
             x = [rng.choice([0.5, 1.25, 2.5, 7.0, -3.5, rng.uniform(1.5, 9)]) for _ in range(dim)]
             xa = np.asarray(x if (dim > 1 or family == 'Hessdiag' or bs == 'array') else x[0])
+            if rng.random() < 0.3:
+                # somebody else constructs one more object on the same generator, passing step options next to it (they do not apply to
+                # a generator object that is handed over ready-made, and certainly do not reconfigure it for its other users)
+                extra = rng.choice([{'num_steps': 4}, {'step_ratio': 3.0}, {'base_step': 0.5}, {'offset': 2}, {'num_extrap': 2}])
+                try:
+                    (nd.Derivative if family == 'Derivative' else nd.Hessdiag)(FUNCS['exp'] if family == 'Derivative' else fsum, step=gen, **extra)
+                except Exception:
+                    pass
             if inplace:
                 # the caller keeps one array and updates it in place between the calls (x *= 2, x -= rate * grad(x), x[0] = ..)
                 if xbuf is None:
